@@ -423,7 +423,7 @@ class Runner:
                         return
                 elif kind == "evalpart":
                     kept_top = max((k[i] for k in m for i in range(nv) if i not in st["vars"]), default=0)
-                    if not st.get("vars") or kept_top > (20 if retaining else 600):
+                    if not st.get("vars") or kept_top > (1 if retaining else 600):
                         continue  # a kept indeterminate is raised to its power by repeated multiplication
                     vals = [v if all(k[i] <= 40 for k in m) else 1 for i, v in zip(st["vars"], st["vals"])]
                     res = p(**{names[i]: v for i, v in zip(st["vars"], vals)})
@@ -436,7 +436,7 @@ class Runner:
                         want[tuple(key)] = want.get(tuple(key), 0) + c
                     want = {k: c for k, c in want.items() if c != 0}
                 elif kind == "swap":
-                    if nv < 2 or big(m) > (20 if retaining else 100):
+                    if nv < 2 or big(m) > (1 if retaining else 100):
                         continue  # substitution raises the symbol to the power by repeated multiplication
                     a, b = numpoly.symbols(names[0]), numpoly.symbols(names[1])
                     res = p(**{names[0]: b, names[1]: a})
